@@ -127,7 +127,7 @@ SAN_ENV = {"ASAN_OPTIONS": "detect_leaks=1:abort_on_error=0:exitcode=87:allocato
            "LSAN_OPTIONS": "exitcode=86"}
 
 
-def run_harness(exe, seed, n, outpath, only=None, timeout=1800, extra_env=None, start=0, append=False):
+def run_harness(exe, seed, n, outpath, only=None, timeout=900, extra_env=None, start=0, append=False):
     env = dict(os.environ)
     env.update(SAN_ENV)
     if extra_env:
